@@ -570,3 +570,66 @@ def _two_mesh(name, order, twin_of=None):
 
 _two_mesh("expr_two_mesh_ab", "AB")
 _two_mesh("expr_two_mesh_ba", "BA", twin_of="expr_two_mesh_ab")
+
+
+# ---- additions after the second round of seeded changes ------------------------------------
+
+# kernels with more than 32 dofs per block (large hoisted temporaries, long tables)
+_add(
+    _lagrange_form(
+        "mass_p4_tet_coeff", "tetrahedron", 4, "f * ufl.inner(u, v)",
+        extra=["f = ufl.Coefficient(V)"], tags=("kern", "zoo", "highorder"),
+    )
+)
+_add(
+    _lagrange_form(
+        "mass_q3_hex", "hexahedron", 3, "ufl.inner(u, v)", tags=("kern", "zoo", "highorder", "slow"),
+    )
+)
+_add(
+    _lagrange_form(
+        "stiff_p4_triangle_coeff", "triangle", 4, "f * ufl.inner(ufl.grad(u), ufl.grad(v))",
+        extra=["f = ufl.Coefficient(V)"], tags=("kern", "zoo", "highorder"),
+    )
+)
+# two coefficients in different elements whose tables are numerically identical (scalar P1 and a
+# component of vector P1), test function in another space: which table name wins is decided by
+# the order in which the terminals are visited
+_add(
+    Request(
+        "shared_table_two_coeffs",
+        "forms",
+        [
+            _mesh("triangle"),
+            'P1 = ufl.FunctionSpace(mesh, basix.ufl.element("Lagrange", "triangle", 1))',
+            'VP1 = ufl.FunctionSpace(mesh, basix.ufl.element("Lagrange", "triangle", 1, shape=(2,)))',
+            'P2 = ufl.FunctionSpace(mesh, basix.ufl.element("Lagrange", "triangle", 2))',
+            "f = ufl.Coefficient(P1)",
+            "g = ufl.Coefficient(VP1)",
+            "v = ufl.TestFunction(P2)",
+            "L = f * g[1] * v * ufl.dx",
+            "objs = [L]",
+        ],
+        tags=("kern", "multi-el"),
+    )
+)
+_add(
+    Request(
+        "shared_table_three_coeffs",
+        "forms",
+        [
+            _mesh("tetrahedron"),
+            'P1 = ufl.FunctionSpace(mesh, basix.ufl.element("Lagrange", "tetrahedron", 1))',
+            'VP1 = ufl.FunctionSpace(mesh, basix.ufl.element("Lagrange", "tetrahedron", 1, shape=(3,)))',
+            'P2 = ufl.FunctionSpace(mesh, basix.ufl.element("Lagrange", "tetrahedron", 2))',
+            "f = ufl.Coefficient(P1)",
+            "g = ufl.Coefficient(VP1)",
+            "h = ufl.Coefficient(P1)",
+            "k = ufl.Constant(mesh)",
+            "v = ufl.TestFunction(P2)",
+            "L = k * f * g[2] * h * v * ufl.dx + f * g[0] * v * ufl.ds",
+            "objs = [L]",
+        ],
+        tags=("kern", "multi-el"),
+    )
+)
